@@ -43,7 +43,9 @@ def compileOp (j : Json) : R Json := do
     let c := validateClean gs s.qc.numQubits nIn outs
     let wf := wellFormed gs s.qc.numQubits
     let extra : List (String × Json) := [("valid", toJson v), ("clean", toJson c), ("wellformed", toJson wf),
-      ("in_fragment", toJson (inAnyFragment inputs defs rets unc)),
+      ("in_fragment", toJson (inAnyFragment inputs defs rets unc || inGeneralClass inputs defs rets)),
+      ("in_general", toJson (inGeneralClass inputs defs rets)),
+      ("in_general_only", toJson (inGeneralClass inputs defs rets && !(inAnyFragment inputs defs rets unc))),
       ("in_fragment_old", toJson (inFragment inputs defs rets)),
       ("in_fragment_const", toJson (inFragmentConst inputs defs rets)),
       ("in_fragment_multi", toJson (!unc && inFragmentMulti inputs defs rets)),
